@@ -189,6 +189,7 @@ func C12(c *Ctx) {
 	r.Rule("R12.2", "caches purged: every path of RollbackState that reverts a journal first clears the in-block account map and the account cache; AccountCache.clear purges every lru layer of the cache struct.")
 	r.Rule("R12.3", "journal completeness: the storage kinds written by Commit (account record, code, state key) are exactly the kinds revertJournal restores, each with put and delete; the journal record of a height is put into the same batch as that height's data and the max-height marker; each reverted height deletes its journal record and lowers the max-height marker in the batch that carries the reverted data.")
 	r.Rule("R12.5", "restore only what changed: in revertJournal every Put / Delete of an account record lies behind the entry's AccountChanged flag and every Put / Delete of code behind CodeChanged; an entry that records only storage changes must leave the stored account record (balance, nonce, code hash) untouched.")
+	r.Rule("R12.6", "one journal entry is undone as a whole: every path through revertJournal reaches the loop over PrevStates and the test of CodeChanged - an early return after the account record was handled would leave the storage keys and the code that the block wrote in the database.")
 	r.Rule("R12.4", "root chain continues: after reverting, every successful path stores prevJnlHash (re-read from the target height's journal) and maxJnlHeight; a value other than that journal's root is stored only behind height == 0 or is overwritten before every return; the rollback is refused exactly when minJnlHeight > height (any spelling of that comparison), so the target's journal record exists whenever it is read.")
 	r.NotDecided = append(r.NotDecided, "value-level equality of restored state; re-execution equivalence")
 
@@ -357,6 +358,8 @@ func C12(c *Ctx) {
 		}
 		r.Check(okBatch, "R12.3", "RollbackState: reverted data and marker share the iteration's batch", c.P.Pos(rs.Pos()), "revertJournal(journal, batch) and batch.Delete(journal-<i>) use one batch", "the reverted data and the journal bookkeeping of a height are written by different batches")
 	}
+	// R12.6
+	c.revertJournalWhole("R12.6")
 	// R12.5
 	if rj != nil {
 		ops := batchOps(rj)
@@ -600,4 +603,40 @@ func C12(c *Ctx) {
 		}
 		r.Floor("R12.4", "refusal comparisons minJnlHeight vs height", nWin, 1)
 	}
+}
+
+
+// revertJournalWhole (R12.6 / R11.6): every path through revertJournal reaches the PrevStates loop and the CodeChanged test.
+func (c *Ctx) revertJournalWhole(rule string) {
+	r := c.R
+	rj := c.fn(rule, "internal/ledger.revertJournal")
+	if rj == nil {
+		return
+	}
+		isStatesLoop := func(in ssa.Instruction) bool {
+			rg, ok := in.(*ssa.Range)
+			return ok && core.Mentions(rg.X, fieldNamed("PrevStates"))
+		}
+		isCodeTest := func(in ssa.Instruction) bool {
+			ifi, ok := in.(*ssa.If)
+			if !ok {
+				return false
+			}
+			f := core.CondFact(ifi.Cond)
+			return f.Kind == core.FBool && f.Field == "CodeChanged"
+		}
+		for _, step := range []struct {
+			name string
+			p    InstrPred
+		}{{"the loop over PrevStates", isStatesLoop}, {"the test of CodeChanged", isCodeTest}} {
+			rs := core.Reach([]core.Point{core.EntryOf(rj)}, step.p, nil)
+			skipped := false
+			for _, ret := range core.Returns(rj) {
+				if rs.Has(ret) {
+					skipped = true
+				}
+			}
+			r.Check(len(sites(rj, step.p)) > 0 && !skipped, rule, "revertJournal: every path reaches "+step.name, c.P.Pos(rj.Pos()), "no return before it",
+				"a path through revertJournal returns before "+step.name+": for such a journal entry (e.g. an account created in the block) the storage keys / code written by the block are not removed, and the rolled-back state differs from the state of that height")
+		}
 }
